@@ -37,6 +37,13 @@ func checkC13(c *Ctx) {
 	// decided by complete unrolling when the burst is not written as "one send, then one counted loop of sends" (e.g. the 129
 	// messages are prepared in an array first): every returning path sends exactly Control Change(current channel, All Notes
 	// Off, 0) and Note Off(current channel, n, 0) for each n in 0..127, once each, and nothing else
+	{
+		allNotesOff, _ := c.P.constValue(pkgMidi, "AllNotesOff")
+		// R13.10 "All Notes Off" is channel-mode controller 123 (MIDI 1.0); the rules above compare with the project's constant,
+		// this one compares the constant with the number a receiver understands
+		c.Check(allNotesOff != nil && constant.Compare(allNotesOff, token.EQL, constant.MakeInt64(123)), "R13.10", "midi.AllNotesOff=123", c.P.Pos(fn.Pos()),
+			"the constant the panic burst sends as controller number is 123", fmt.Sprintf("midi.AllNotesOff is %v, not 123: the panic burst sends a controller message no receiver takes for All Notes Off", allNotesOff))
+	}
 	if ok, why := panicBurstUnrolled(c, dv, fn); ok {
 		c.OK("R13.1", "device.Panic/sends-only-in-Panic", pos, why)
 		c.OK("R13.1", "device.Panic/send#1", pos, "ControlChange(current channel, AllNotesOff=123, 0) on every path, once (unrolled)")
@@ -383,6 +390,7 @@ func checkC14(c *Ctx) {
 	}
 	ruleDispatch(c, dv, "R14.5", true, false)                     // every press and release reaches the held-key bookkeeping
 	c.importRules(noSharedStateRules, []string{"R16.5"}, "R14.7") // the held-key set of a device starts empty: nothing carried over from another device or an earlier attach of the same one
+	c.importRules(parsedConfigRules, []string{"R12.10"}, "R14.8") // and the parsed one is what the file says: the loader adds no exit sequence of its own
 	c.importRules(configIntactRules, []string{"R3.7"}, "R14.6")   // the exit sequence compared against is the parsed one
 	c.MinCount("R14.1", 3)
 	c.MinCount("R14.2", 2)
